@@ -1124,10 +1124,10 @@ class OptimiserHistory:
         if self._is_closed:
             raise RuntimeError("Cannot add to closed OptimiserHistory")
 
-        self._len += 1
         # check if we need to push last coords to disk or can skip
         if len(self._memory) < self._maxlen or self._filename is None:
             self._memory.append(coords)
+            self._len += 1
             return None
 
         n_stored = self._n_stored
@@ -1135,6 +1135,7 @@ class OptimiserHistory:
             with file.open(f"coords_{n_stored}", "w") as fh:
                 pickle.dump(self._memory[0], fh, pickle.HIGHEST_PROTOCOL)
         self._memory.append(coords)
+        self._len += 1  # Only counted once it has been stored
         return None
 
     def close(self):
